@@ -496,6 +496,8 @@ static void c18_order(vr_rng *r)
         static const char *wn[] = { "equal", "random", "dominant", "zero-durations", "dominant-first", "dominant-last" };
         vr_cnt_dyn(wpat == 0 ? "w_equal" : wpat == 1 ? "w_random" : wpat == 3 ? "w_zero_durations" : "w_dominant", 1);
         struct cmb_timeseries *ts = cmb_timeseries_create();
+        /* closing a series that has no samples yet (the precondition admits it) leaves it empty */
+        if (vr_chance(r, 1, 6)) { uint64_t c0 = cmb_timeseries_finalize(ts, 3.0); if (c0 != 0 || cmb_timeseries_count(ts) != 0) vr_violation("C18/ts-finalize-empty", "finalize of an empty time series returned %" PRIu64 ", count now %" PRIu64, c0, cmb_timeseries_count(ts)); VR_CNT("empty_series_finalized"); }
         if (vr_chance(r, 1, 3)) { size_t m0 = vr_chance(r, 1, 2) ? 5 : 1300; for (size_t k = 0; k < m0; k++) cmb_timeseries_add(ts, (double)(k % 7), 0.5 * (double)k); cmb_timeseries_finalize(ts, 0.5 * (double)m0 + 3.0); cmb_timeseries_sort_x(ts); (void)cmb_timeseries_median(ts); cmb_timeseries_reset(ts); VR_CNT("series_with_an_earlier_life");
             if (cmb_timeseries_count(ts) != 0) vr_violation("C18/ts-reset", "a reset time series reports %" PRIu64 " samples", cmb_timeseries_count(ts)); }
         struct trip *tr = malloc((n + 2) * sizeof *tr), *tr2 = malloc((n + 2) * sizeof *tr2);
@@ -783,6 +785,22 @@ static void c18_acf(vr_rng *r)
     cmb_dataset_ACF(d, lags, acf);
     cmb_dataset_PACF(d, lags, pacf, NULL);
     VR_CNT("acf_computed");
+    /* the correlograms of both get printed: one line per lag, the bar in proportion to the coefficient and full width beyond +-1 (this estimator
+     * divides by the number of products, so short series give coefficients beyond one at the larger lags) */
+    for (int which = 0; which < 2 && vr_nviol == 0; which++) {
+        const double *cf = which ? pacf : acf; bool fin = true; for (unsigned l = 1; l <= lags; l++) if (!(fabs(cf[l]) < 1e300)) fin = false;
+        if (!fin) continue;
+        char *buf = NULL; size_t bl = 0; FILE *mf = open_memstream(&buf, &bl); cmb_dataset_correlogram_print(d, mf, lags, (double *)cf); fclose(mf);
+        unsigned seen = 0; char *save = NULL; bool beyond = false;
+        for (char *ln = strtok_r(buf, "\n", &save); ln && vr_nviol == 0; ln = strtok_r(NULL, "\n", &save)) {
+            unsigned lag = 0; double val = 0; if (sscanf(ln, "%u %lf", &lag, &val) != 2 || lag != seen + 1) continue;
+            seen++; double a = fabs(cf[lag]); if (a > 1.0) { a = 1.0; beyond = true; }
+            unsigned full = 0; for (const char *c = ln; *c; c++) if (*c == '#') full++;
+            if (full != (unsigned)floor(33.0 * a)) vr_violation("C18/correlogram-bar", "%s correlogram, lag %u: coefficient %.6g drawn with %u full characters, expected %u of 33", which ? "PACF" : "ACF", lag, cf[lag], full, (unsigned)floor(33.0 * a));
+        }
+        if (vr_nviol == 0 && seen != lags) vr_violation("C18/correlogram-lines", "%s correlogram of %u lags has %u lag lines", which ? "PACF" : "ACF", lags, seen);
+        free(buf); VR_CNT("correlograms_parsed"); if (beyond) VR_CNT("correlograms_with_coefficients_beyond_one");
+    }
     if (acf[0] != 1.0) vr_violation("C18/acf-lag0", "ACF[0]=%g", acf[0]);
     if (pacf[0] != 1.0) vr_violation("C18/pacf-lag0", "PACF[0]=%g", pacf[0]);
     if (fabs(pacf[1] - acf[1]) > 1e-12) vr_violation("C18/pacf-lag1", "PACF[1]=%g but ACF[1]=%g", pacf[1], acf[1]);
